@@ -19,6 +19,11 @@ type AnyBuf interface {
 	Channel(c int) AnyChan // the channel view
 	BufferIndex(c, i int) int
 	WriteVals(vs []Val) int // signal.Write of the values (element type T) into the buffer
+	// ReadVals: signal.Read into a []T of length n; returns the slice contents and the count.
+	ReadVals(n int) ([]Val, int)
+	// WriteStripedVals / ReadStripedVals: striped forms with []T channels (nil entries allowed / lens<0 = nil).
+	WriteStripedVals(in [][]Val) int
+	ReadStripedVals(lens []int) ([][]Val, int)
 }
 
 // AnyChan is a type-erased signal.C[T].
@@ -46,6 +51,51 @@ func (b TBuf[T]) WriteVals(vs []Val) int {
 		in[i] = As[T](v)
 	}
 	return signal.Write(in, b.B)
+}
+
+func (b TBuf[T]) ReadVals(n int) ([]Val, int) {
+	out := make([]T, n)
+	ret := signal.Read(b.B, out)
+	vs := make([]Val, n)
+	for i, x := range out {
+		vs[i] = Of(x)
+	}
+	return vs, ret
+}
+
+func (b TBuf[T]) WriteStripedVals(in [][]Val) int {
+	tin := make([][]T, len(in))
+	for c, ch := range in {
+		if ch == nil {
+			continue
+		}
+		tin[c] = make([]T, len(ch))
+		for i, v := range ch {
+			tin[c][i] = As[T](v)
+		}
+	}
+	return signal.WriteStriped(tin, b.B)
+}
+
+func (b TBuf[T]) ReadStripedVals(lens []int) ([][]Val, int) {
+	out := make([][]T, len(lens))
+	for c, l := range lens {
+		if l >= 0 {
+			out[c] = make([]T, l)
+		}
+	}
+	ret := signal.ReadStriped(b.B, out)
+	vs := make([][]Val, len(lens))
+	for c := range out {
+		if out[c] == nil {
+			continue
+		}
+		vs[c] = make([]Val, len(out[c]))
+		for i, x := range out[c] {
+			vs[c][i] = Of(x)
+		}
+	}
+	return vs, ret
 }
 
 func (b TBuf[T]) Append(src AnyBuf)        { b.B.Append(src.Raw().(*signal.Buffer[T])) }
